@@ -80,7 +80,7 @@ void harness(void)
 	ASSUME(t != NULL);
 	memset(t, 0, sizeof(*t));
 	t->oid = 21U, t->strm = (echs_evstrm_t)&S, t->owner = nummapstr_bang_num(1000);
-	ASSUME(in.msim == 63 || in.msim == 2);	/* unset, or a limit that NOCC runs cannot reach while each exits in time */
+	ASSUME(in.msim == 63 || in.msim == NOCC);	/* unset, or a limit that NOCC runs cannot reach (MAX-SIMUL itself is C12's subject) */
 	t->max_simul = (unsigned)in.msim;
 	meself.uid = 0;
 	CHECK(ini_task_ht() == 0, "task table set up");
